@@ -46,6 +46,7 @@ import (
 	"github.com/foxcpp/maddy/framework/module"
 	"github.com/foxcpp/maddy/internal/msgpipeline"
 	"github.com/foxcpp/maddy/internal/smtpconn/pool"
+	"github.com/foxcpp/maddy/internal/target/queue"
 	"github.com/foxcpp/maddy/internal/target/remote"
 	"github.com/foxcpp/maddy/verifharness/scripted"
 	"github.com/foxcpp/maddy/verifharness/vtrace"
@@ -153,7 +154,7 @@ func configText(c Cfg, key string) (top, pipe string) {
 		}
 	}
 	for _, t := range []string{"T1", "T2"} {
-		if c.Kind == "rpipe" && t == "T1" {
+		if (c.Kind == "rpipe" || c.Kind == "qpipe") && t == "T1" {
 			continue // the real remote target, registered by the caller under the same name
 		}
 		fmt.Fprintf(&tb, "target.verif_rec %s_%s {\nid %s\nctl %s\n}\n", key, t, t, key)
@@ -359,8 +360,13 @@ func runPipeline(t *testing.T, b Behaviour, w *bufio.Writer) {
 		defer scripted.UnbindCheckCtl(key)
 
 		top, pipe := configText(b.Cfg, key)
-		if b.Cfg.Kind == "rpipe" {
-			rw := newRemoteBehind(tr, key+"_T1", "T1")
+		var rw *remoteBehind
+		if b.Cfg.Kind == "rpipe" || b.Cfg.Kind == "qpipe" {
+			if b.Cfg.Kind == "rpipe" {
+				rw = newRemoteBehind(tr, key+"_T1", "T1")
+			} else {
+				rw = newQueueBehind(t, tr, key+"_T1", "T1")
+			}
 			defer rw.close()
 			module.RegisterInstance(rw, nil)
 			module.Initialized[key+"_T1"] = true
@@ -402,6 +408,7 @@ func runPipeline(t *testing.T, b Behaviour, w *bufio.Writer) {
 			return
 		}
 		accepted := 0
+		var acceptedIDs []string
 		for i, blk := range b.Cfg.Route {
 			r := fmt.Sprintf("r%d", i+1)
 			addr := r + "@" + blockDomain[blk]
@@ -409,6 +416,7 @@ func runPipeline(t *testing.T, b Behaviour, w *bufio.Writer) {
 			d.cmd("rcpt", r, func() { e = dl.AddRcpt(ctx, addr, smtp.RcptOptions{}) })
 			if d.ret("rcpt", r, e) {
 				accepted++
+				acceptedIDs = append(acceptedIDs, r)
 			}
 		}
 		fin := "commit"
@@ -424,6 +432,12 @@ func runPipeline(t *testing.T, b Behaviour, w *bufio.Writer) {
 				d.cmd("body", "", func() { dl.(module.PartialDelivery).BodyNonAtomic(ctx, col, hdr, body) })
 				st := map[string]string{}
 				res, code := "err", 0
+				for _, r := range acceptedIDs { // a target without BodyNonAtomic reports failures only
+					if _, ok := col.st[r]; !ok {
+						st[r] = "ok"
+						res = "ok"
+					}
+				}
 				for r, e := range col.st {
 					s, c := errInfo(e)
 					st[r] = s
@@ -450,6 +464,16 @@ func runPipeline(t *testing.T, b Behaviour, w *bufio.Writer) {
 			d.cmd("abort", "", func() { e = dl.Abort(ctx) })
 		}
 		d.ret(fin, "", e)
+		if rw != nil && rw.relayed != nil {
+			// the committed queue delivers on its own goroutine (fake clock of the bubble)
+			for i := 0; i < 3 && !rw.relayed(); i++ {
+				synctest.Wait()
+				if !rw.relayed() {
+					time.Sleep(time.Second)
+				}
+			}
+			synctest.Wait()
+		}
 		tr.Emit("End", nil)
 	})
 }
@@ -549,8 +573,10 @@ func remoteClass(err error) string {
 type remoteBehind struct {
 	name, id string
 	tr       *vtrace.Tracer
-	rt       *remote.Target
+	rt       module.DeliveryTarget // the real target that is observed
 	hop      *miniHop
+	closer   func()
+	relayed  func() bool // qpipe: the queue handed the message on
 }
 
 func newRemoteBehind(tr *vtrace.Tracer, instName, id string) *remoteBehind {
@@ -573,13 +599,61 @@ func newRemoteBehind(tr *vtrace.Tracer, instName, id string) *remoteBehind {
 		SubmissionTimeout: 20 * time.Second,
 		Log:               nolog,
 	})
-	return &remoteBehind{name: instName, id: id, tr: tr, rt: rt, hop: hop}
+	return &remoteBehind{name: instName, id: id, tr: tr, rt: rt, hop: hop, closer: func() { rt.Close() }}
+}
+
+// kind "qpipe": the real queue behind destination block D1; beneath it a target that records,
+// as call "relay" on "Q1", the quarantine flag of the metadata the queue hands over when it
+// delivers the message.
+type relayTarget struct {
+	tr   *vtrace.Tracer
+	mu   sync.Mutex
+	seen bool
+}
+
+type relayDelivery struct {
+	t    *relayTarget
+	meta *module.MsgMetadata
+}
+
+func (t *relayTarget) Start(ctx context.Context, msgMeta *module.MsgMetadata, mailFrom string) (module.Delivery, error) {
+	return &relayDelivery{t: t, meta: msgMeta}, nil
+}
+func (d *relayDelivery) AddRcpt(ctx context.Context, to string, _ smtp.RcptOptions) error { return nil }
+func (d *relayDelivery) Body(ctx context.Context, h textproto.Header, b buffer.Buffer) error {
+	d.t.tr.Emit("TgtCall", vtrace.Ev{"tgt": "Q1", "op": "relay", "arg": "", "res": "ok", "q": d.meta.Quarantine})
+	d.t.mu.Lock()
+	d.t.seen = true
+	d.t.mu.Unlock()
+	return nil
+}
+func (d *relayDelivery) Commit(ctx context.Context) error { return nil }
+func (d *relayDelivery) Abort(ctx context.Context) error  { return nil }
+
+func newQueueBehind(t *testing.T, tr *vtrace.Tracer, instName, id string) *remoteBehind {
+	dir, err := os.MkdirTemp(os.Getenv("VERIF_TMP"), "c06spool")
+	if err != nil {
+		t.Fatal(err)
+	}
+	rel := &relayTarget{tr: tr}
+	q, err := queue.VerifNewQueue(queue.VerifConfig{
+		Location: dir, Target: rel, MaxTries: 1, MaxParallelism: 1,
+		InitialRetryTime: time.Minute, RetryTimeScale: 1, PostInitDelay: 0,
+		Hostname: "mx.example.org", AutogenMsgDomain: "example.org",
+		Log: log.Logger{Out: log.NopOutput{}},
+	})
+	if err != nil {
+		t.Fatal(err)
+	}
+	return &remoteBehind{name: instName, id: id, tr: tr, rt: q, hop: &miniHop{},
+		closer:  func() { q.Close(); os.RemoveAll(dir) },
+		relayed: func() bool { rel.mu.Lock(); defer rel.mu.Unlock(); return rel.seen }}
 }
 
 func (w *remoteBehind) Init(*config.Map) error { return nil }
 func (w *remoteBehind) Name() string           { return "target.remote" }
 func (w *remoteBehind) InstanceName() string   { return w.name }
-func (w *remoteBehind) close()                 { w.rt.Close() }
+func (w *remoteBehind) close()                 { w.closer() }
 
 func (w *remoteBehind) log(op, arg, res string, meta *module.MsgMetadata) {
 	w.tr.Emit("TgtCall", vtrace.Ev{"tgt": w.id, "op": op, "arg": arg, "res": res, "q": meta.Quarantine,
@@ -598,8 +672,14 @@ func (w *remoteBehind) Start(ctx context.Context, msgMeta *module.MsgMetadata, m
 	if err != nil {
 		return nil, err
 	}
-	return &remoteBehindDelivery{w: w, meta: msgMeta, d: d}, nil
+	rd := &remoteBehindDelivery{w: w, meta: msgMeta, d: d}
+	if _, ok := d.(module.PartialDelivery); ok {
+		return remoteBehindPartial{rd}, nil
+	}
+	return rd, nil
 }
+
+type remoteBehindPartial struct{ *remoteBehindDelivery }
 
 func (d *remoteBehindDelivery) AddRcpt(ctx context.Context, to string, opts smtp.RcptOptions) error {
 	err := d.d.AddRcpt(ctx, to, opts)
@@ -635,7 +715,7 @@ func (t *tee) SetStatus(rcpt string, err error) {
 	t.inner.SetStatus(rcpt, err)
 }
 
-func (d *remoteBehindDelivery) BodyNonAtomic(ctx context.Context, c module.StatusCollector, h textproto.Header, b buffer.Buffer) {
+func (d remoteBehindPartial) BodyNonAtomic(ctx context.Context, c module.StatusCollector, h textproto.Header, b buffer.Buffer) {
 	before := d.w.hop.count()
 	t := &tee{inner: c}
 	d.d.(module.PartialDelivery).BodyNonAtomic(ctx, t, h, b)
